@@ -35,6 +35,39 @@ class _Return(Exception):
         self.v = v
 
 
+_C_ESC = {"n": "\n", "t": "\t", "r": "\r", "0": "\0", "\\": "\\", '"': '"', "'": "'", "a": "\a", "b": "\b", "f": "\f", "v": "\v", "?": "?"}
+
+
+def _c_unescape(s):
+    """the characters a C string literal denotes (clang keeps the source spelling)"""
+    if "\\" not in s:
+        return s
+    out, i = [], 0
+    while i < len(s):
+        c = s[i]
+        if c != "\\" or i + 1 >= len(s):
+            out.append(c)
+            i += 1
+            continue
+        d = s[i + 1]
+        if d == "x":
+            j = i + 2
+            while j < len(s) and s[j] in "0123456789abcdefABCDEF":
+                j += 1
+            out.append(chr(int(s[i + 2:j] or "0", 16) & 0xFF))
+            i = j
+        elif d in "01234567":
+            j = i + 1
+            while j < len(s) and j < i + 4 and s[j] in "01234567":
+                j += 1
+            out.append(chr(int(s[i + 1:j], 8) & 0xFF))
+            i = j
+        else:
+            out.append(_C_ESC.get(d, d))
+            i += 2
+    return "".join(out)
+
+
 def f32(x):
     try:
         return struct.unpack("f", struct.pack("f", x))[0]
@@ -93,7 +126,7 @@ class Kern:
                 return v
             if isinstance(v, str):
                 # string / character literal (clang keeps the quotes of string literals)
-                return v[1:-1] if len(v) >= 2 and v[0] == '"' and v[-1] == '"' else v
+                return _c_unescape(v[1:-1]) if len(v) >= 2 and v[0] == '"' and v[-1] == '"' else v
             if v is None:
                 return None             # nullptr
             raise KernUnsupported(f"literal {v!r}")
